@@ -101,7 +101,8 @@ func oracleC09(x *Exec, so *StepObs) {
 		if c, dup := creator[e.rev]; dup {
 			cause := "none"
 			for _, d := range evs {
-				if d.kind == "delete" && d.rev == e.rev && d.seq < e.seq {
+				// (with the driver's calls running truly concurrently the recorded order of two overlapping calls is arbitrary)
+				if d.kind == "delete" && d.rev == e.rev && (d.seq < e.seq || x.Plan.CoRelease == "inner") {
 					if d.proc == e.proc {
 						cause = "second-creator-pruned-the-first-record"
 					} else if d.proc != c && cause == "none" && prunes[d.proc] {
